@@ -117,6 +117,10 @@ fixed("C02", "D16a", "^fix: rebased commits no longer get notes", "after a plain
 fixed("C02", "D11", "^fix: reset --soft/--mixed keeps pending", "pending AI lines in f.txt were dropped by `git reset --soft|--mixed HEAD~1` when the un-done commit only touched g.txt (reconstruct_working_log_after_reset rebuilt only files changed in the un-done range and deleted the old working log)", "c02.reset_of_unrelated_commit_keeps_pending")
 fixed("C02", "D25", "^fix: bare 'git stash' takes", "bare `git stash` (implicit push) skipped the pre-stash human checkpoint that `git stash push` runs, so a person's unreported insertion above pending AI lines left stale line numbers in the stash note and an AI line came back human after pop", "c02.bare_stash_after_unreported_human_edit")
 
+open_("C18", "D49", "C18/alias-tokens-differ@trailing-backslash", [],
+      "alias value ending in a lone backslash, e.g. alias.zz='log -1\\': git rejects the alias (`fatal: bad alias.zz string: cmdline ends with \\`); parse_alias_tokens keeps the backslash as a literal character and the proxy runs `log -1\\` (the pinned unit test parse_alias_tokens_trailing_backslash asserts the current behaviour, so the repair is not an unedited-suite-compatible fix)",
+      "c18.alias_value_ending_in_backslash", ["alias_trailing_backslash"], affects=[])
+fixed("C18", "D48", "^fix: alias tokenizer keeps empty quoted", "alias.zz=\"log ''\": git splits the value into `log` and an empty argument, parse_alias_tokens dropped the empty argument, and because the proxy hands git the expansion (D41) the proxied command differed from what git runs for the alias", "c18.alias_value_with_empty_quoted_argument")
 fixed("C12", "D46", "^fix: notes search pins --no-color", "with color.ui=always (or color.grep=always) a rebase that takes the full replay (upstream changed the same file above the AI lines) wrote notes listing the session but with an empty prompts object: grep_ai_notes parsed coloured `git grep` output and found nothing (hash without prompt record; result depends on git configuration)", "c12.color_ui_always_hides_prompt_records_in_rebased_notes")
 fixed("C03", "D47", "^fix: blaming an empty commit range", "main holds S1's lines 6-7 right below a person's line 5; on a branch the person (no agent) inserts a token into line 5 and deletes line 4; `git merge --squash br`; commit => the person's line (now line 4) was committed as S1's: the target side was blamed over the empty range X..X, for which git silently blames the work tree, so S1's line numbers were off by the lines removed above them", "c03.squash_person_modifies_line_above_ai_block")
 open_("C11", "D8", "C11/not-serializable@overlapping-journal-windows", [],
